@@ -76,7 +76,15 @@ pub fn big_shape(k: usize, w: usize, h: usize) -> Vec<bool> {
                 1 => (r + c) % 2 == 0,
                 2 => r.min(c).min(h - 1 - r).min(w - 1 - c) % 2 == 0,
                 3 => true,
-                _ => i == 0 || i == w * h - 1 || r == h - 1,
+                4 => i == 0 || i == w * h - 1 || r == h - 1,
+                // fixed pseudo-random textures (a multiplicative hash of the cell index): many
+                // components, holes and diagonal contacts, outlines of several hundred thousand steps
+                5 => i == 0 || (i as u64).wrapping_mul(0x9E37_79B9_7F4A_7C15).rotate_left(17) >> 63 == 1,
+                6 => i == 0 || (i as u64 ^ 0x5555).wrapping_mul(0xD6E8_FEB8_6659_FD93).rotate_left(23) >> 62 == 0,
+                // rows alternately joined at the right and at the left end (one long snake)
+                7 => r % 2 == 0 || (r % 4 == 1 && c == w - 1) || (r % 4 == 3 && c == 0),
+                // comb
+                _ => r == 0 || c % 2 == 0,
             }
         })
         .collect()
@@ -200,11 +208,11 @@ pub fn run(ctx: &Ctx) -> i32 {
         }
     });
     // 4. large bitmaps (the path code works on 16-bit node coordinates: up to 32766 modules per side)
-    let big: Vec<(usize, usize)> = vec![(180, 180), (181, 181), (200, 200), (256, 256), (4000, 10), (10, 4000), (32000, 2), (2, 32000)];
+    let big: Vec<(usize, usize)> = vec![(180, 180), (181, 181), (200, 200), (256, 256), (300, 300), (400, 400), (512, 512), (300, 700), (700, 300), (4000, 10), (10, 4000), (32000, 2), (2, 32000)];
     ctx.par(big.len() as u64, |c, wk| {
         let (w, h) = big[c as usize];
         wk.label(|| format!("large bitmap {}x{}", w, h));
-        for k in 0..5 {
+        for k in 0..9 {
             let s = big_shape(k, w, h);
             wk.check((w * h) as u64, || json!({"width": w, "height": h, "large_shape": k}), |st| { eval(&s, w, st)?; st.count("large_bitmaps"); Ok(()) });
         }
@@ -214,7 +222,7 @@ pub fn run(ctx: &Ctx) -> i32 {
         "evaluations": ctx.evaluations(),
         "distinct_nontrivial": ctx.counter("nontrivial"),
         "rule": format!("all w x h bool arrays with a dark top-left module for every (w, h) with w*h <= {} (complete); all arrays with a light top-left module up to 12 modules (pixels/unicode only); bitmaps of encoded symbols of all 48 sizes and of a sweep of short inputs; \
-synthetic topologies (nested rings, diagonal chains, combs, checkerboards, spirals); large bitmaps up to 32000 modules per side (frame, checkerboard, rings, solid). Oracle R8: interpret the segments from (0,0) with SVG semantics, every segment non-zero and axis parallel, every sub-path closed, Move only after Close relative to the start of the closed sub-path, \
+synthetic topologies (nested rings, diagonal chains, combs, checkerboards, spirals); large bitmaps up to 32000 modules per side and up to 512 x 512 (frame, checkerboard, rings, solid, corner dots, two fixed hash textures with outlines of several hundred thousand unit steps, snake, comb). Oracle R8: interpret the segments from (0,0) with SVG semantics, every segment non-zero and axis parallel, every sub-path closed, Move only after Close relative to the start of the closed sub-path, \
 all vertices inside the bounding box, even-odd fill == dark modules; pixels() == row-major dark coordinates; unicode() parsed back == bitmap inside a one-module light border. All cases distinct; non-trivial = more than one sub-path or more than 5 segments.", limit),
         "exhaustive": true,
         "max_subpaths": ctx.maximum("subpaths"),
